@@ -191,6 +191,7 @@ def run(R):
     if R.tier == "thorough":
         from ..cyir import compile_witness
         compile_witness(R)
+    common.call_with_context_rule(R, "C01.SHAPE")
     R.require_min("C01.SHAPE", 7)
     R.require_min("C01.FLOW-RESULT", 10)
     R.require_min("C01.BUILD", 40)
